@@ -240,3 +240,26 @@ Example payload_example :
   | Some bs => match parse_bytes bs with Some p => p_cmds p = [16388; 65537; 4294967295] | None => False end
   | None => False end.
 Proof. eexists; split; [left; reflexivity|]. vm_compute. reflexivity. Qed.
+
+(* ------------------------------------------------------------------ the hardware size guard of generate_command_stream *)
+From VV Require Import gen.GenGuards.
+
+Lemma emitter_size_fold (cmds : list (list Z)) (acc : Z) :
+  fold_left (fun sz cmd => sz + Z.of_nat (List.length cmd) * emitter_word_size) cmds acc
+  = acc + 4 * Z.of_nat (List.length (List.concat cmds)).
+Proof.
+  revert acc. induction cmds as [|c t IH]; intros acc; cbn [fold_left List.concat].
+  - cbn. lia.
+  - rewrite IH. rewrite app_length, Nat2Z.inj_add. unfold emitter_word_size. lia.
+Qed.
+
+Lemma emitter_size_is_4_words_lemma (cmds : list (list Z)) :
+  emitter_size_in_bytes cmds = 4 * Z.of_nat (List.length (emitter_to_list cmds)).
+Proof. unfold emitter_size_in_bytes, emitter_to_list. rewrite emitter_size_fold. lia. Qed.
+
+Lemma hw_limit_guard_spec_lemma (cmds : list (list Z)) :
+  hw_limit_guard (emitter_size_in_bytes cmds) = true <-> 2 ^ 22 <= Z.of_nat (List.length (emitter_to_list cmds)).
+Proof.
+  rewrite emitter_size_is_4_words_lemma. unfold hw_limit_guard. change (Z.shiftl 1 24) with 16777216.
+  change (2 ^ 22) with 4194304. rewrite Z.geb_le. lia.
+Qed.
